@@ -314,7 +314,7 @@ def generate(tier):
         inner_ty = "&'static str" if d == 'IntoStaticStr' else 'String'   # IntoStaticStr forwards through From<&Inner> for &'static str
         cs.add(d, cs.enum(d, insert_at(base_variants(d), tup('Good', [inner_ty], [('transparent',)]), 'middle')), 'control-transparent', 'accept')
     # R7 placeholders on a unit variant; empty braces on a tuple variant
-    for lit in ('{0}', '{x}', 'a{}b', 'pre {name:>4}', '{{{0}}}'):
+    for lit in ('{0}', '{x}', 'a{}b', 'pre {name:>4}', '{{{0}}}', '日本語{x}', 'ééé {0}', 'é{0}', '{x}日本'):
         for pos in positions:
             cs.add('Display', cs.enum('Display', insert_at(base_variants('Display'), unit('Bad', [('to_string', lit)]), pos)), 'R7-unit-placeholder', 'reject')
     for pos in positions:
@@ -325,7 +325,7 @@ def generate(tier):
     cs.add('Display', cs.enum('Display', [unit('Alpha', [('to_string', 'a')]), unit('Beta')], eattrs=[[('prefix', 'pre{0}-')]]), 'R7-unit-placeholder-prefix', 'reject')
     for lit in ('{}', 'a {} b', '{:>4}'):
         cs.add('Display', cs.enum('Display', insert_at(base_variants('Display'), tup('Bad', ['u8'], [('to_string', lit)]), 'middle')), 'R7-empty-placeholder', None)
-    for lit in ('{{escaped}}', 'plain', '}}{{'):
+    for lit in ('{{escaped}}', 'plain', '}}{{', '日本語{{x}}'):
         cs.add('Display', cs.enum('Display', insert_at(base_variants('Display'), unit('Fine', [('to_string', lit)]), 'middle')), 'control-escaped', 'accept')
     for lit in ('{', 'a}b', '{a{b}}'):
         cs.add('Display', cs.enum('Display', insert_at(base_variants('Display'), unit('Odd', [('to_string', lit)]), 'middle')), 'R7-unbalanced', None)
